@@ -241,6 +241,34 @@ def run(prog, chk):
     chk.ob('R14.3', pf, pf.ln, uses_helper or own == base, 'the for-initialiser decides "declaration" with the shared type-ahead test (or the same token set): helper=%s own set=%s' % (uses_helper, sorted(own)),
            key='type-set:parseFor')
 
+    # lookahead and parser must agree on the extent of a generic type: the parser nests (type arguments are types), so the
+    # lookahead's `<…>` skipper must count nesting depth
+    ta = prog.fn('Parser::isTypeAhead')
+    pt = prog.fn('Parser::parseType')
+    nests = any(t is pt for t in prog.reach([f for f in prog.fns('Parser::parseTypeArgumentList')]))
+    if nests:
+        bodies = [ta] + list(ta.lambdas)
+        ok = False
+        for b in bodies:
+            g = prog.cfg(b)
+            counters = {}
+            for n, l, r, op in g.writes():
+                l = SX.strip(l)
+                if op in ('++', '--') and SX.is_node(l) and l.get('k') == 'ref' and l.get('t') in ('int', 'unsigned long', 'long'):
+                    for ce, pol, _ in g.guards(n):
+                        cp = SX.cmp_parts(ce)
+                        if cp and pol and cp[0] == '==':
+                            tok = [x['name'].split('::')[-1] for x in (SX.strip(cp[1]), SX.strip(cp[2])) if SX.is_node(x) and x.get('kind') == 'enum']
+                            if tok:
+                                counters.setdefault(l['id'], set()).add((op, tok[0]))
+                                break
+            for vid, evs in counters.items():
+                zero_exit = any(c.kind == 'cond' and (lambda cp: cp and cp[0] == '==' and SX.strip(cp[1]).get('id') == vid and SX.strip(cp[2]).get('v') == 0)(SX.cmp_parts(c.e)) for c in g.nodes)
+                if ('++', 'Less') in evs and ('--', 'Greater') in evs and zero_exit:
+                    ok = True
+        chk.ob('R14.3', ta, ta.ln, ok, 'type arguments nest in parseType, so the declaration look-ahead must skip `<…>` by counting depth (++ on `<`, -- on `>`, stop at 0); '
+               'a first-`>` scan misjudges `Box<Box<int>> x` as an expression', key='typeahead-nesting')
+
     # ---- R14.4 statement keywords -----------------------------------------------------------------------
     ps = prog.fn('Parser::parseStatement')
     stmt_kw = []
